@@ -1166,6 +1166,13 @@ func (vc *FuncVC) evalCall(env *Env, x *ECall) *CVal {
 			}
 		}
 		panic(fmt.Errorf("inloop: no loop %d", k.V.Int64()))
+	case "emod", "ediv":
+		// Euclidean remainder / quotient (SMT-LIB mod, div): what >> and & with 2^k-1 are on non-negative integers
+		op := "mod"
+		if name == "ediv" {
+			op = "div"
+		}
+		return &CVal{T: T(app(op, arg(0).T, arg(1).T), SInt), Typ: types.Typ[types.Int]}
 	case "dynkind":
 		// dynkind(x): the reflect.Kind of the dynamic type of interface value x (0 for nil)
 		v := arg(0)
@@ -1356,6 +1363,16 @@ func (vc *FuncVC) evalCall(env *Env, x *ECall) *CVal {
 			full = qualify(pkg.Path(), name)
 		}
 	}
+	if _, ok := vc.P.CS.Funcs[full]; !ok && len(x.Args) > 0 {
+		// a pure method applied in function style: Base(cell) for (baseCheck).Base
+		if a0 := arg(0); a0.Typ != nil {
+			for _, cand := range []string{"(" + types.TypeString(a0.Typ, nil) + ")." + name, "(*" + types.TypeString(a0.Typ, nil) + ")." + name} {
+				if c, ok := vc.P.CS.Funcs[cand]; ok && c.Pure {
+					full = cand
+				}
+			}
+		}
+	}
 	if con, ok := vc.P.CS.Funcs[full]; ok && con.Pure {
 		fn := vc.P.Funcs[full]
 		if fn == nil {
@@ -1496,6 +1513,22 @@ func (vc *FuncVC) evalQuant(env *Env, x *EQuant) *CVal {
 		q = "forall"
 	}
 	res := T(fmt.Sprintf("(%s (%s) %s)", q, strings.Join(binders, " "), body.T.S), SBool)
+	if len(x.Pats) > 0 && x.Forall {
+		// user-supplied triggers
+		pats := ""
+		for _, ps := range x.Pats {
+			var ts []string
+			for _, e := range ps {
+				pe := *n
+				pe.pol = 0
+				vc.quantDepth++
+				ts = append(ts, vc.eval(&pe, e).T.S)
+				vc.quantDepth--
+			}
+			pats += " :pattern (" + strings.Join(ts, " ") + ")"
+		}
+		res = T(fmt.Sprintf("(forall (%s) (! %s%s))", strings.Join(binders, " "), body.T.S, pats), SBool)
+	}
 	if skolemForm != nil {
 		res = And(res, *skolemForm)
 	}
